@@ -2,7 +2,8 @@
 (* U1 for Literals: the operational parser equals the grammar-level decoder *)
 (* on every text of length <= TextLen over the critical symbols, and on the  *)
 (* escape-attempt family (0..AttemptDigits digits, with and without braces,  *)
-(* around the 0x2FFFF limit, in small contexts).  Texts are decoded from an  *)
+(* around the 0x2FFFF limit, in small contexts; braces at every position of   *)
+(* an attempt).  Texts are decoded from an                                    *)
 (* index so that no large set is ever materialised.                          *)
 EXTENDS Literals, TLC
 
@@ -31,8 +32,19 @@ Attempt(n) ==
       post  == Ctx[(n4 % 3) + 1]
   IN pre \o <<92, 117>> \o open \o ds \o close \o post
 
-Total == NTexts + NAttempts
-Case(n) == IF n < NTexts THEN Text(n) ELSE Attempt(n - NTexts)
+\* braces at every position of an attempt: \u D1 { D2 } D3 for every split of a digit string of length <= 4
+SplitDigits == <<48, 52, 70>>                         \* 0 4 F
+NSplit == Pow(4, 4) * 25
+Min2(x, y) == IF x < y THEN x ELSE y
+Max2(x, y) == IF x < y THEN y ELSE x
+Split(n) ==
+  LET ds == FromIndex(n % 256, 4, SplitDigits, <<>>)   n1 == n \div 256
+      i  == Min2(n1 % 5, Len(ds))
+      j  == Max2(i, Min2(n1 \div 5, Len(ds)))
+  IN <<92, 117>> \o SubSeq(ds, 1, i) \o <<123>> \o SubSeq(ds, i + 1, j) \o <<125>> \o SubSeq(ds, j + 1, Len(ds))
+
+Total == NTexts + NAttempts + NSplit
+Case(n) == IF n < NTexts THEN Text(n) ELSE IF n < NTexts + NAttempts THEN Attempt(n - NTexts) ELSE Split(n - NTexts - NAttempts)
 
 VARIABLE l
 K == 64
